@@ -2,7 +2,7 @@
 
 import itertools
 
-from vlib import gen, lib, tablecheck
+from vlib import bigcases, gen, lib, tablecheck
 
 PROPERTY = 'C16'
 RULE = ('cases are context tables: exhaustive n*m <= 12 (quick) / <= 16 (thorough), Hypothesis fill families, and a '
@@ -136,11 +136,19 @@ def biased_tables(draw):
 
 def plan(tier, seed):
     return tablecheck.plan(tier, seed, quick_cells=12, thorough_cells=16, thorough_shapes=(), thorough_multisets=(),
-                           hyp_quick=(12, 300), hyp_thorough=(16, 3000), profiles=('small', 'biased', 'medium'), wide=True)
+                           hyp_quick=(12, 300), hyp_thorough=(16, 3000), profiles=('small', 'biased', 'medium'), wide=True,
+                           fixed=('tall:5000',))
+
+
+def fixed_cases(name):
+    # thousands of objects with complementary, subcontrary, implied and incompatible property pairs
+    kind, size = name.split(':')
+    yield dict(bigcases.tall_relations(int(size), 1), f='big-' + kind)
+    yield dict(bigcases.tall_relations(4097, 2), f='big-' + kind)
 
 
 def run(task, ctx):
-    tablecheck.run(task, ctx, check_one,
+    tablecheck.run(task, ctx, check_one, fixed_cases=fixed_cases,
                    strategy_of=lambda t: biased_tables() if t['profile'] == 'biased' else
                    gen.wide_tables() if t['profile'] == 'wide' else gen.tables(t['profile']))
 
